@@ -53,7 +53,7 @@ REAL = ['asyncssh stream.py (SSHReader/SSHWriter/SSHStreamSession), '
         'process.py (SSHClientProcess/SSHServerProcess, redirection), '
         'channel, connection of both endpoints']
 STUB = ['event loop + clock', 'TCP', 'executor', 'OS randomness']
-PROBES = ['async_iteration', 'mode_reader', 'mode_run', 'mode_redirect', 'text_mode',
+PROBES = ['read_cancelled', 'async_iteration', 'mode_reader', 'mode_run', 'mode_redirect', 'text_mode',
           'tiny_packets', 'readuntil_multi', 'readuntil_regex',
           'incomplete_read_at_eof', 'limit_overrun', 'exit_signal',
           'exit_status', 'redirect_process', 'redirect_file',
@@ -115,9 +115,18 @@ def gen_prog(rng):
 
     for _ in range(rng.between(1, 12)):
         k = rng.weighted([('read', 30), ('exactly', 15), ('line', 15),
-                          ('until', 25), ('y', 15)])
+                          ('until', 25), ('y', 15), ('cancel', 8)])
 
-        if k == 'read':
+        if k == 'cancel':
+            # a read the caller gives up on (wait_for with a timeout): if
+            # it is cancelled before it completes it must consume nothing
+            inner = rng.choice([['read', rng.choice([5, 100, 70000])],
+                                ['exactly', rng.choice([2, 5, 17, 64, 300])],
+                                ['exactly', rng.choice([64, 300])],
+                                ['until', rng.choice(SEPS)], ['line'],
+                                ['readall']])
+            prog.append(['cancel', inner, rng.choice([0, 1, 2, 4, 8, 20])])
+        elif k == 'read':
             prog.append(['read', rng.choice([1, 2, 3, 5, 16, 100, 70000])])
         elif k == 'exactly':
             prog.append(['exactly', rng.choice([0, 1, 2, 5, 17, 64, 300])])
@@ -199,6 +208,14 @@ def valid_plan(plan):
                 return False
 
             for op in prog:
+                if op[0] == 'cancel':
+                    if len(op) != 3 or not 0 <= op[2] <= 200 or \
+                            op[1][0] not in ('read', 'exactly', 'line',
+                                             'until', 'readall'):
+                        return False
+
+                    op = op[1]
+
                 if op[0] not in ('read', 'exactly', 'line', 'until', 'y',
                                  'z', 'readall', 'aiter'):
                     return False
@@ -429,12 +446,63 @@ async def run_program(world, name, reader, prog, ref, sep_compile):
             continue
 
         result = exc = None
+        task = None
+
+        async def call(o):
+            if o[0] == 'read':
+                return await reader.read(o[1])
+
+            if o[0] == 'readall':
+                return await reader.read()
+
+            if o[0] == 'exactly':
+                return await reader.readexactly(o[1])
+
+            if o[0] == 'line':
+                return await reader.readline()
+
+            spec = o[1]
+
+            if spec[0] == 're':
+                pat = spec[1] if ref.text else spec[1].encode()
+                sim.probes['readuntil_regex'] += 1
+                return await reader.readuntil(re.compile(pat), spec[2])
+
+            if len(spec) == 1:
+                sep = spec[0] if ref.text else spec[0].encode()
+                return await reader.readuntil(sep)
+
+            seps = tuple(x if ref.text else x.encode() for x in spec)
+            sim.probes['readuntil_multi'] += 1
+            return await reader.readuntil(seps)
+
+        if kind == 'cancel':
+            # the caller waits for a while and then gives up on the call
+            op, patience = op[1], op[2]
+            kind = op[0]
+            task = sim.loop.create_task(call(op), name='rd-cancel:' + name)
+
+            for _ in range(patience):
+                if task.done():
+                    break
+
+                await sim.pause('rd:' + name)
+
+            if not task.done():
+                task.cancel()
+
+                try:
+                    await task
+                except asyncio.CancelledError:
+                    pass
+
+                # given up on: the stream is where it was
+                sim.probes['read_cancelled'] += 1
+                continue
 
         try:
-            if kind == 'read':
-                result = await reader.read(op[1])
-            elif kind == 'readall':
-                result = await reader.read()
+            if task is not None:
+                result = task.result()
             elif kind == 'aiter':
                 result = []
 
@@ -446,24 +514,8 @@ async def run_program(world, name, reader, prog, ref, sep_compile):
                         break
 
                 sim.probes['async_iteration'] += 1
-            elif kind == 'exactly':
-                result = await reader.readexactly(op[1])
-            elif kind == 'line':
-                result = await reader.readline()
             else:
-                spec = op[1]
-
-                if spec[0] == 're':
-                    pat = spec[1] if ref.text else spec[1].encode()
-                    result = await reader.readuntil(re.compile(pat), spec[2])
-                    sim.probes['readuntil_regex'] += 1
-                elif len(spec) == 1:
-                    sep = spec[0] if ref.text else spec[0].encode()
-                    result = await reader.readuntil(sep)
-                else:
-                    seps = tuple(s if ref.text else s.encode() for s in spec)
-                    result = await reader.readuntil(seps)
-                    sim.probes['readuntil_multi'] += 1
+                result = await call(op)
         except asyncio.IncompleteReadError as e:
             exc = e
         except (asyncssh.Error, OSError) as e:
